@@ -609,6 +609,12 @@ func runC09(c *fw.Case) {
 		return
 	}
 	if rng.Intn(8) == 0 {
+		if ar := aggregateDerive(rng, root); ar != nil {
+			root = ar
+			c.Count("roots_produced_by_aggregate", 1)
+		}
+	}
+	if rng.Intn(8) == 0 {
 		meta := model.MetaOf(root.Shadow)
 		if up, op := model.UpperCaseEnum(rng, root.QF, root.Shadow, meta); op != "" {
 			if sh2, e := model.ObserveGuard(up); e == nil {
